@@ -203,3 +203,27 @@ def dict_ints(lo, hi, repo="/repo", limit=None, rng=None):
     if limit is not None and len(xs) > limit and rng is not None:
         xs = sorted(rng.sample(xs, limit))
     return xs
+
+
+def alias_chars(a):
+    """code points that coincide with the attribute letter `a` after a truncation, a mask or a case fold:
+    an unrecognised descriptor that a lossy comparison would take for a recognised one"""
+    out = []
+    for v in (a + 0x100, a + 0x200, a + 0x4E00, a + 0xFF00, a + 0x10000, a + 0x10FF00, a | 0x80, a ^ 0x20, a + 0x80):
+        if 0 <= v < 0x110000 and not (0xD800 <= v <= 0xDFFF) and v != a:
+            out.append(v)
+    return sorted(set(out))
+
+
+def mutate_frame(r, fr):
+    """variants of a valid frame with the checksum recomputed: a flipped bit, a changed byte, a truncated or
+    extended body, a changed bit right after the header fields"""
+    p = bytearray(fr[3:-3])
+    out = []
+    if len(p) > 2:
+        q = bytearray(p); i = r.randrange(12, len(q) * 8); q[i // 8] ^= 0x80 >> (i % 8); out.append(bytes(q))
+        q = bytearray(p); q[r.randrange(2, len(q))] = r.choice([0, 255, 0x80, r.getrandbits(8)]); out.append(bytes(q))
+        out.append(bytes(p[:r.randrange(2, len(p))]))
+        out.append(bytes(p[:-1]))
+        out.append(bytes(p) + rand_bytes(r, r.choice([1, 2, 9])))
+    return [mk_frame(x[:1023]) for x in out]
